@@ -227,13 +227,15 @@ def iter_cases(seed, n, maxdim, kinds, path, large_share=0.3):
             calls = []
             for _ in range(rnd.randint(1, 6)):
                 rem = hi - lo
-                ops = ["next", "next_back", "nth", "nth", "nth_back", "nth_back", "len"]
+                ops = ["next", "next_back", "nth", "nth", "nth_back", "nth_back", "len", "find", "rfind", "try_fold", "try_rfold", "position", "rposition"]
                 if t in ("col", "col_mut"):
                     ops.append("index")
                 if rnd.random() < 0.12:
-                    ops = ["count", "last", "fold", "rfold"]
+                    ops = ["count", "last", "fold", "rfold", "for_each", "rev_for_each"]
                 op = rnd.choice(ops)
-                if op in ("nth", "nth_back", "index"):
+                if op in ("find", "rfind", "try_fold", "try_rfold", "position", "rposition"):
+                    a = {"n": rnd.choice([0, 1, max(rem - 1, 0), rem, rem + 1, rnd.randint(0, rem + 1)])}
+                elif op in ("nth", "nth_back", "index"):
                     cands = [0, 1, max(rem - 1, 0), rem, rem + 1, 1000001]
                     if c > 0:
                         cands += [c - 1, c, c + 1, 2 * c, max(rem - c, 0), rnd.randint(0, rem + 1)]
@@ -245,9 +247,9 @@ def iter_cases(seed, n, maxdim, kinds, path, large_share=0.3):
                 # track the ideal position so that later arguments stay interesting
                 if op == "next" and rem > 0: lo += 1
                 elif op == "next_back" and rem > 0: hi -= 1
-                elif op == "nth": lo = lo + a["n"] + 1 if a["n"] < rem else hi
-                elif op == "nth_back": hi = hi - a["n"] - 1 if a["n"] < rem else lo
-                elif op in ("count", "last", "fold", "rfold"):
+                elif op in ("nth", "find", "try_fold", "position"): lo = lo + a["n"] + 1 if a["n"] < rem else hi
+                elif op in ("nth_back", "rfind", "try_rfold", "rposition"): hi = hi - a["n"] - 1 if a["n"] < rem else lo
+                elif op in ("count", "last", "fold", "rfold", "for_each", "rev_for_each"):
                     break
             case = {"fam": "iter", "root": {"kind": "owned", "nc": nc, "nr": nr, "ids": ids}, "stack": stack,
                     "kind": {"t": t, "c": col}, "calls": calls}
